@@ -7,12 +7,13 @@ another order, (c) pattern rigidly rotated / translated, (d) every valid hint tr
 Tie: the transformed searches also run through the Lean model (views compared as in C01/C02), and the model's hint
 resolution (`resolveAxis`, `resolveOpoint`) is compared with the axis the code actually used."""
 import itertools
+import math
 import os
 import random
 
 import numpy as np
 
-from .. import core, findlib as fl, gen_find_c02 as g
+from .. import core, findlib as fl, gen_find_c02 as g, gen_find_c03 as g3
 
 ATOL = 0.05
 TWO_IMAGES_TAG = "supercell-two-images-one-group"
@@ -31,7 +32,11 @@ RULE = ("base structures as in C02 (validated planted copies, per-atom perturbat
         "0.1-0.25 atol); 3 other RNG seeds; replication <= 2x1x1 (quick) / <= 2x2x2 (thorough) when every cell width exceeds 2*(diameter+2*atol) (below that two images of one atom can both fit and the relation is mathematically false). Thorough also: "
         "docs/examples/uio66.cif + uio66-linker.cml (24 linkers) and tests/uio66/uio66-triclinic.lmpdat (6 linkers, "
         "atol 0.2): shift, permutation, pattern motion, reseed, 2x1x1. Separate small stream for the KNOWN FINDING (narrow "
-        "cells with two fitting images of one atom: supercell along that cell vector, 3 quick / 20 thorough). Non-trivial = the base search reports at least "
+        "cells with two fitting images of one atom: supercell along that cell vector, 3 quick / 20 thorough). "
+        "NEARLY LINEAR patterns (3-5 atoms along a line, inner atoms at most f*atol off it, f in {0, <0.05, 0.1-0.5, 0.52-0.97 "
+        "(weight 4/9), 1.03-1.6, 1.6-4}; 1-3 exact / atol/40 / atol/16 copies in distinct poses, validated by the enumerator): "
+        "pattern moved arbitrarily and ROLLED ABOUT ITS OWN LONG AXIS (fixed and random angles), crystal turned, shift / "
+        "permutation, valid hint triples with lever ratios ro<=3, ra<=2.5 (orientation atom a fraction of atol off the axis). Non-trivial = the base search reports at least "
         "one match and the transformation is not the identity.")
 
 HINT_PATTERNS = [p for p in fl.PATTERNS if len(fl.PATTERNS[p][0]) <= 4]
@@ -500,6 +505,12 @@ def run(ctx, oracle_only=False, scale=1):
         bad, tb, res = relation(base, "hints", list(h), bk)
         if bad:
             ctx.fail(bad, inp, required="same key set for every valid hint triple", tags=hint_failure_tags(base, h, bk, res))
+    # ---- nearly linear patterns (3-5 atoms, inner atoms at most f * atol off the long axis, f from 0 over the window
+    # 0.5 < f < 1 to 4): the azimuth about the long axis is fixed by an atom that is only a fraction of the tolerance away
+    # from the axis.  Copies in distinct poses, i.e. rolled about their own axis relative to the pattern as given.
+    # Relations: pattern moved rigidly (arbitrary motion; rolls about its OWN long axis), whole crystal turned, valid
+    # well-conditioned hint triples (orientation atom off the axis, ro <= 3, ra <= 2.5), shift, permutation.
+    near_linear(ctx, rng, ctx.n(36, 300) * scale, pairs, n_tie if not oracle_only else 0)
     if ctx.tier == "quick" and scale == 1 and HINT_PATTERNS:
         ctx.notes.append("hint triples enumerated completely for one structure per pattern with <= 4 atoms")
     # ---- the repository's MOF files (oracle only)
@@ -508,6 +519,61 @@ def run(ctx, oracle_only=False, scale=1):
     if not oracle_only:
         tie_resolve(ctx, resolve_items)
         tie(ctx, pairs)
+
+
+ROLLS = [math.pi / 2, math.pi, -math.pi / 2, math.pi / 4, 3 * math.pi / 4, 2 * math.pi / 3]
+
+
+def near_linear(ctx, rng, n_cases, pairs, n_tie):
+    tied = 0
+    for i in range(n_cases):
+        atol = rng.choice(ATOLS)
+        case = g3.near_linear_case(rng, atol=atol)
+        if case is None:
+            ctx.count("generator:rejected")
+            continue
+        base = base_of(case, atol)
+        ctx.count("stream:near-linear")
+        ctx.count("near-linear:bend-" + case["info"]["bend"])
+        ctx.count("near-linear:copies-%d" % case["info"]["copies"])
+        bres = real_search(base, seed=1)
+        bk = keys(bres)
+        if bk is None:
+            ctx.fail("the search raised %s" % bres.get("err"), inp_of(base, "seed", 1), tags=["base", "near-linear"])
+            continue
+        tg = ["near-linear", "bend:" + case["info"]["bend"]]
+        ppos = base["pattern"]["pos"]
+        v, order, pm = rand_params(rng, base)
+        tie_it = tied < min(12, n_tie) and rng.random() < 0.4
+        tied += bool(tie_it)
+        check_rel(ctx, base, "pattern", pm, bk, pairs, tie_it, tags=tg)
+        # the pattern rolled about its own long axis (and translated): two of the fixed angles, one random angle
+        for ang in rng.sample(ROLLS, 2) + [rng.uniform(-math.pi, math.pi)]:
+            t = [rng.choice([0.0, rng.uniform(-5, 5)]) for _ in range(3)]
+            check_rel(ctx, base, "pattern", [g3.axis_roll(ppos, ang), t], bk, pairs, False, tags=tg)
+        check_rel(ctx, base, "rotate-crystal", list(crystal_turn(rng)), bk, pairs, False, tags=tg)
+        if i % 2 == 0:
+            check_rel(ctx, base, "shift", v, bk, pairs, False, tags=tg)
+        else:
+            check_rel(ctx, base, "perm", order, bk, pairs, False, tags=tg)
+        # hints: only for exact / atol/40 copies (as in the general hint stream), small lever ratios
+        if case["info"]["perturb_div"] in (0.0, 40.0):
+            hs = g3.conditioned_hints(ppos)
+            with_o = [h for h in hs if h[2] is not None]
+            picked = rng.sample(with_o, min(2, len(with_o))) + rng.sample(hs, min(1, len(hs)))
+            npat = len(ppos)
+            for h in picked:
+                hs_spelled, spelling = g.spell_hints(rng, h, npat)
+                rel = "hints-np" if spelling == "numpy" else "hints"
+                param = [None if x is None else int(x) for x in hs_spelled]
+                bad, tb, res = relation(base, rel, param, bk)
+                inp = inp_of(base, rel, param)
+                ctx.case(inp, nontrivial=bool(bk))
+                ctx.count("rel:hints")
+                ctx.count("near-linear:hint-triples")
+                if bad:
+                    ctx.fail(bad, inp, required="same key set for every valid hint triple",
+                             tags=hint_failure_tags(base, h, bk, res) + tg)
 
 
 MOFS = [("docs/examples/uio66.cif", "docs/examples/uio66-linker.cml", 0.05, 24, {}),
